@@ -616,6 +616,23 @@ def tolq(y, rel=1e-11):
     return r_lit(Fraction(rel) * (1 + abs(Fraction(y))))
 
 
+def independent_projection(ag, center, vals):
+    """rho_k(r_i) = sum over the points p of shell i of  w_ang(p) f(p) Y_k(direction of p)  for the rows k of degree <= 2, from the grid's
+    actual points (so any rotation of the shells is taken from the grid itself); rows a pruned shell cannot integrate are zero
+    (documented in radial_component_splines).  Returns cubic splines (scipy default end conditions, as the library)."""
+    from scipy.interpolate import CubicSpline
+    nrow = min(9, (ag.l_max // 2 + 1) ** 2)
+    rows = np.zeros((nrow, ag.rgrid.size))
+    for i in range(ag.rgrid.size):
+        sl = slice(ag.indices[i], ag.indices[i + 1])
+        rel = ag.points[sl] - center
+        w = ag.weights[sl] / (ag.rgrid.points[i] ** 2 * ag.rgrid.weights[i])
+        rows[:, i] = real_harmonics_l2(rel)[:nrow] @ (w * vals[sl])
+        if ag.degrees[i] != ag.l_max:
+            rows[(ag.degrees[i] // 2 + 1) ** 2:, i] = 0.0
+    return [CubicSpline(ag.rgrid.points, row) for row in rows]
+
+
 class Cases:
     """Coq tactic cases collected by all tie functions and compiled together (parallel shards)."""
 
@@ -633,7 +650,12 @@ def capture_solver(ctx: Ctx, kind: str, it: int, C: Cases):
     deg = rng.choice([3, 5, 5] if ctx.quick else [3, 5, 5, 7])
     rgrid = dyadic_radial_grid(rng, rng.randint(5, 9))
     center = np.array([rng.randint(-4, 4) / 4 for _ in range(3)])
-    ag = AtomGrid(rgrid, degrees=[deg], center=center)
+    # every other capture: randomly rotated shells (what the MolGrid constructors do by default), sometimes pruned inner shells
+    rot = 0 if it % 2 == 0 else rng.choice([11, 37, rng.randint(1, 10 ** 6)])
+    degs = [deg] * rgrid.size
+    if it % 4 == 1 and deg > 3:
+        degs[0] = degs[1] = 3
+    ag = AtomGrid(rgrid, degrees=degs, center=center, rotate=rot)
     L = ag.l_max // 2
     nrow = (L + 1) ** 2
     nprng = np.random.default_rng(rng.randint(0, 2 ** 31))
@@ -649,17 +671,28 @@ def capture_solver(ctx: Ctx, kind: str, it: int, C: Cases):
     else:
         with patched(GP, "solve_ode_ivp", rec):
             pot = GP.solve_poisson_ivp(ag, vals.copy(), tf, r_interval=r_interval, ode_params=dict(user))
-    key = f"{kind}:seed={ctx.seed}:it={it}:deg={deg}:n={rgrid.size}"
+    key = f"{kind}:seed={ctx.seed}:it={it}:deg={deg}:n={rgrid.size}:rotate={rot}"
     P_ = kind
 
     def add(goal, tac, what, obs=None):
         C.add(goal, tac, f"corr_{kind}_" + what.split("[")[0].split("(")[0].split(" ")[0], key, what, obs)
 
     # ---- python-level: number of solves, mesh, forwarded options
-    splines = ag.radial_component_splines(vals)          # what the code must have used (AtomGrid wrapper: weights are 1)
+    # what the code must have used (AtomGrid wrapper: weights are 1): rows of degree <= 2 are projected INDEPENDENTLY from the
+    # grid's actual points (Cartesian harmonics, angular weights = weights / (r^2 w_r)); higher rows from the library
+    splines = list(ag.radial_component_splines(vals))
+    ind = independent_projection(ag, center, vals)
+    lib = np.array([sp(rgrid.points) for sp in splines[:len(ind)]])
+    ind_vals = np.array([sp(rgrid.points) for sp in ind])
+    if not np.allclose(lib, ind_vals, rtol=0, atol=1e-9 * (1 + float(np.max(np.abs(ind_vals))))):
+        problems_pre = [("projection", float(np.max(np.abs(lib - ind_vals))),
+                         f"radial_component_splines differs from the projection of the values onto the harmonics at the grid's own points (rotate={rot})")]
+    else:
+        problems_pre = []
+    splines[:len(ind)] = ind
     Q = float(ag.integrate(vals))
     Y00 = float(generate_real_spherical_harmonics(0, np.array([0.1]), np.array([0.1]))[0, 0])
-    problems = []
+    problems = list(problems_pre)
     if len(rec.calls) != nrow:
         problems.append(("count", len(rec.calls), f"{len(rec.calls)} solver calls, the harmonics have {nrow} rows"))
     if kind == "bvp":
@@ -1028,7 +1061,20 @@ def radial_grid(spec):
 def build_grid(case):
     rad, tf = radial_grid(case["radial"])
     coords = np.array(case["atoms"], dtype=float)
-    ats = [AtomGrid(rad, degrees=[case["degree"]], center=c) for c in coords]
+    ctor = case.get("molctor")
+    if ctor:    # the class-method constructors rotate every shell by default (rotate=37) and use Becke weights
+        atn = np.array([1] * len(coords))
+        if ctor == "from_size":
+            mg = MolGrid.from_size(atn, coords, case["size"], rgrid=rad, store=True)
+        elif ctor == "from_pruned":
+            mg = MolGrid.from_pruned(atn, coords, 1.0, r_sectors=[case["r_sectors"]] * len(coords), d_sectors=[case["d_sectors"]] * len(coords),
+                                     rgrid=rad, store=True)
+        elif ctor == "from_preset":
+            mg = MolGrid.from_preset(atn, coords, case["preset"], rgrid=rad, store=True)
+        else:
+            raise KeyError(ctor)
+        return mg, tf, coords
+    ats = [AtomGrid(rad, degrees=[case["degree"]], center=c, rotate=case.get("rotate", 0)) for c in coords]
     if len(ats) == 1 and not case.get("as_molgrid"):
         return ats[0], tf, coords
     mg = MolGrid(atnums=np.array([1] * len(ats)), atgrids=ats, aim_weights=BeckeWeights(order=3), store=True)
@@ -1125,7 +1171,7 @@ def run_case(ctx: Ctx, case, results):
             ctx.notes.append(f"ODE solver did not converge (no potential returned): {case_text(case)}")
             # atom-centred spherical Gaussians on the tests' grids are inside the envelope: no answer there is a failure;
             # anisotropic / off-centre components with the origin in the mesh are known to be fragile: counted only
-            results.append((case, None if case["cat"] in ("bvp_lm", "bvp_near") else float("inf"),
+            results.append((case, None if case["cat"] in ("bvp_lm", "bvp_near", "bvp_rot") else float("inf"),
                             dict(point=None, got="ValueError: " + str(e), expected="a potential", scale=1.0)))
             return None
         raise
@@ -1176,6 +1222,18 @@ def sweep_cases(ctx: Ctx):
     add(solver="bvp", radial=("becke_gl", 70, 1e-3, 1.5), degree=5, atoms=[O],
         density=[("s", O, 1.0, alpha()), ("lm", 1, rng.choice([0, 1, 2]), 0.8, alpha(), 1), ("lm", 2, rng.choice([0, 1, 2, 3, 4]), -0.6, alpha(), 2)],
         bvp=dict(remove_large_pts=40.0, include_origin=False), box=2.0, npts=16, cat="bvp_lm")
+    # --- ROTATED angular shells (rotate != 0; the default of the MolGrid constructors): anisotropic and off-centre densities
+    rot = lambda: rng.choice([11, 37, rng.randint(1, 10 ** 6)])      # noqa: E731
+    nogin = dict(remove_large_pts=40.0, include_origin=False)
+    add(solver="bvp", radial=("becke_gl", 60, 1e-3, 1.5), degree=5, rotate=rot(), atoms=[O], density=[("lm", 1, rng.choice([0, 1, 2]), 1.0, alpha(), 1)],
+        bvp=nogin, box=2.0, npts=16, cat="bvp_rot")
+    add(solver="bvp", radial=("becke_gl", 60, 1e-3, 1.5), degree=rng.choice([5, 7]), rotate=rot(), atoms=[[0.25, -0.5, 1.0]],
+        density=[("s", [0.25, -0.5, 1.0], 0.5, alpha()), ("lm", 2, rng.choice([0, 1, 2, 3, 4]), 1.0, alpha(), 2)], bvp=nogin, box=2.0, npts=16, cat="bvp_rot")
+    d_ = [round(rng.uniform(-0.09, 0.09), 3) for _ in range(3)]
+    add(solver="bvp", radial=("becke_gl", 60, 1e-3, 1.5), degree=9, rotate=rot(), atoms=[O], density=[("s", d_, 1.0, round(rng.uniform(0.6, 1.0), 3))],
+        bvp=nogin, box=2.5, npts=30, cat="bvp_rot")
+    add(solver="bvp", radial=("becke_gl", 60, 1e-3, 1.5), degree=0, molctor="from_size", size=50, atoms=[O, [10.0, 0.0, 0.0]],
+        density=[("lm", 1, rng.choice([0, 1, 2]), 1.0, alpha(), 1), ("s", [10.0, 0.0, 0.0], 1.0, alpha())], bvp=nogin, box=2.0, npts=16, cat="bvp_rot")
     # --- molecular grids (Becke weights), Gaussians on the atoms
     add(solver="bvp", radial=("becke_gl", 60, 1e-5, 1.5), degree=9, atoms=[O, [10.0, 0.0, 0.0]],
         density=[("s", O, 1.0, alpha()), ("s", [10.0, 0.0, 0.0], rng.choice([1.0, 0.5]), alpha())], bvp=dict(remove_large_pts=10.0), cat="bvp_mol")
@@ -1201,7 +1259,22 @@ def sweep_cases(ctx: Ctx):
         for d in (0.1, 0.2):
             cen = [d, 0.0, 0.0] if rng.random() < 0.5 else [0.0, d * 0.6, -d * 0.8]
             add(solver="bvp", radial=("becke_gl", 80, 1e-3, 1.5), degree=17, atoms=[O], density=[("s", cen, 1.0, round(rng.uniform(0.5, 1.2), 3))],
-                bvp=dict(remove_large_pts=40.0, include_origin=False), box=2.5, cat="bvp_near")
+                bvp=dict(remove_large_pts=40.0, include_origin=False), box=2.5, rotate=(0 if d < 0.15 else rot()), cat="bvp_near")
+        # rotated shells: more seeds, both solvers' constructors
+        for _ in range(6):
+            l = rng.choice([1, 2])
+            add(solver="bvp", radial=("becke_gl", rng.choice([60, 80]), 1e-3, 1.5), degree=rng.choice([5, 7, 9]), rotate=rot(), atoms=[O],
+                density=[("lm", l, rng.randint(0, 2 * l), 1.0, alpha(), l)], bvp=nogin, box=2.0, npts=16, cat="bvp_rot")
+        for _ in range(3):
+            d_ = [round(rng.uniform(-0.09, 0.09), 3) for _ in range(3)]
+            add(solver="bvp", radial=("becke_gl", 60, 1e-3, 1.5), degree=rng.choice([9, 11]), rotate=rot(), atoms=[O],
+                density=[("s", d_, 1.0, round(rng.uniform(0.6, 1.0), 3))], bvp=nogin, box=2.5, npts=30, cat="bvp_rot")
+        add(solver="bvp", radial=("becke_gl", 60, 1e-3, 1.5), degree=0, molctor="from_pruned", r_sectors=[0.5, 2.5], d_sectors=[5, 9, 7],
+            atoms=[O, [10.0, 0.0, 0.0]], density=[("lm", 1, rng.choice([0, 1, 2]), 1.0, alpha(), 1), ("s", [10.0, 0.0, 0.0], 1.0, alpha())],
+            bvp=nogin, box=2.0, npts=16, cat="bvp_rot")
+        add(solver="bvp", radial=("becke_gl", 60, 1e-3, 1.5), degree=0, molctor="from_size", size=110, atoms=[O, [9.0, 0.0, 0.0], [0.0, 9.0, 0.0]],
+            density=[("s", [0.08, -0.05, 0.06], 1.0, 0.8), ("s", [9.0, 0.0, 0.0], 0.5, alpha()), ("lm", 2, rng.randint(0, 4), 0.7, alpha(), 2)],
+            bvp=nogin, box=2.0, npts=20, cat="bvp_rot")
         # molecules: 2 and 3 atoms
         add(solver="bvp", radial=("becke_gl", 100, 1e-5, 1.5), degree=29, atoms=[O, [10.0, 0.0, 0.0]],
             density=[("s", O, 1.0, 0.1), ("s", [10.0, 0.0, 0.0], 1.0, 0.1)], bvp=dict(remove_large_pts=10.0, include_origin=True), box=4.0, cat="bvp_mol")
@@ -1336,10 +1409,10 @@ def sweep(ctx: Ctx):
 
 # which sweep categories can exhibit a concrete failing input for a broken obligation
 OBLIGATION_CATS = {
-    "bvp_ode_is_radial_poisson": ["bvp_lm", "bvp", "bvp_mol"], "bvp_ode_explicit_form": ["bvp_lm", "bvp"], "radial_laplacian": ["bvp"],
+    "bvp_ode_is_radial_poisson": ["bvp_lm", "bvp_rot", "bvp", "bvp_mol"], "bvp_ode_explicit_form": ["bvp_lm", "bvp"], "radial_laplacian": ["bvp"],
     "bvp_coeff_at_origin": ["bvp_lm", "bvp"], "ivp_ode_is_radial_poisson": ["ivp"], "far_field": ["bvp", "bvp_mol"],
     "far_field_other_components": ["bvp_lm"], "far_field_ivp": ["ivp"], "far_field_ivp_other_components": ["ivp"],
-    "lm_enumeration": ["bvp_lm", "bvp"], "lm_enumeration_ivp": ["ivp"], "laplacian_expansion": ["lap"], "laplacian_degrees": ["lap"],
+    "lm_enumeration": ["bvp_lm", "bvp_rot", "bvp"], "lm_enumeration_ivp": ["ivp"], "laplacian_expansion": ["lap"], "laplacian_degrees": ["lap"],
     "linear_in_density": ["lin", "bvp"], "linear_in_density_ivp": ["lin", "ivp"], "robust_recombination": ["robust"],
     "robust_recombination_sound": ["robust"], "laplacian_mol_sum": [], "robust_exact_on_core_model": ["robust"], "robust_core_pair_poisson": ["robust"],
 }
@@ -1411,12 +1484,13 @@ def run(ctx: Ctx):  # noqa: F811
         ctx.cov.setdefault("phase_s", {})[name] = round(now - t_last[0], 1)
         t_last[0] = now
     gen_ok = True
+    gen_err = None
     units = {}
     try:
         units = gen(ctx)
-    except U as e:
+    except (U, SyntaxError) as e:      # fail closed; reported below through ctx.broken_tie together with what the sweeps find
         gen_ok = False
-        ctx.fail("translate", f"translate:{e}", None, f"poisson.py / robust_poisson.py left the translated subset: {e}", {}, found_input=False)
+        gen_err = e
     status = {}
     if gen_ok:
         ctx.copy_coq("C16")
@@ -1463,16 +1537,34 @@ def run(ctx: Ctx):  # noqa: F811
         if not rec["err"] <= rec["tol"]:
             if rec["cat"] not in worst or rec["err"] / rec["tol"] > worst[rec["cat"]]["err"] / worst[rec["cat"]]["tol"]:
                 worst[rec["cat"]] = rec
+    # candidates = concrete failing inputs found on the implementation, worst first, known findings excluded
+    ranked = sorted(worst.values(), key=lambda r: -(r["err"] / r["tol"]))
+    fresh = [r for r in ranked if not ctx.is_known(r["key"], round(r["err"], 9))]
     used = set()
+    # tie failures recorded so far have no input of their own: hand them the first fresh failing input as replay
+    tie_fails, seen_obl = [], set()
+    for f in list(ctx.failures):
+        if f.obligation.startswith("corr_") and not f.found_input:
+            ctx.failures.remove(f)
+            if f.obligation not in seen_obl:
+                seen_obl.add(f.obligation)
+                tie_fails.append(f)
+    for f in tie_fails:
+        ctx.broken_tie(f.obligation, f.text, [(r["key"], round(r["err"], 9), r["text"], r["replay"]) for r in fresh])
+        used.update(r["cat"] for r in fresh[:1])
+    if gen_err is not None:
+        # the translator failed closed: no model, no theorems -- the first failing input that is not a listed finding is the replay
+        ctx.broken_tie("translator(poisson.py, robust_poisson.py)", gen_err,
+                       [(r["key"], round(r["err"], 9), r["text"], r["replay"]) for r in fresh])
+        used.update(r["cat"] for r in fresh[:1])
     for name, ob in ctx.obligations.items():
         if ob["status"] == "discharged":
             continue
-        for cat in OBLIGATION_CATS.get(name, []):
-            if cat in worst:
-                rec = worst[cat]
-                used.add(cat)
-                ctx.fail(name, rec["key"], round(rec["err"], 9), f"theorem {name} no longer checks; concrete input: {rec['text']}", rec["replay"])
-                break
+        # a proof about generated definitions broke: prefer an input of a matching category, else any fresh failing input
+        pick = next((worst[c] for c in OBLIGATION_CATS.get(name, []) if c in worst), None) or (fresh[0] if fresh else None)
+        if pick is not None:
+            used.add(pick["cat"])
+            ctx.fail(name, pick["key"], round(pick["err"], 9), f"theorem {name} no longer checks; concrete input: {pick['text']}", pick["replay"])
     for cat, rec in worst.items():
         if cat not in used:
             ctx.fail(f"sweep_{cat}", rec["key"], round(rec["err"], 9), rec["text"], rec["replay"])
@@ -1527,5 +1619,19 @@ def replay(rp: dict) -> int:
         got, exp = float(V(p.copy())[0]), float(pot(p)[0])
         print(f"solve_poisson_{case['solver']}(...)({rp['point']}) = {got}; analytic potential = {exp}; error per unit charge = {abs(got - exp) / scale:.3e} (allowed {TOL})")
         return int(not abs(got - exp) / scale <= TOL)
+    if isinstance(case, dict) and case.get("solver") == "robust" and str(rp.get("key", "")).startswith("robust_exact") and "point" in rp:
+        from grid.coulomb import load_atomic_gaussian_params
+        case = dict(case, id=-1)
+        case["radial"] = tuple(case["radial"])
+        grid, tf, coords = build_grid(case)
+        params = [load_atomic_gaussian_params(int(z)) for z in case["atnums"]]
+        dens = sum(GR._build_core_density(grid.points, c, *p) for c, p in zip(coords, params))
+        p_ = np.array([rp["point"]], dtype=float)
+        got = float(solve_case(case, grid, tf, dens.copy())(p_.copy())[0])
+        exp = float(sum(s_potential(p_, c, *p) for c, p in zip(coords, params))[0])
+        scale = max(1.0, float(sum(np.sum(np.abs(p[0])) for p in params)))
+        print(f"density = fitted core model of Z={case['atnums']}: solve_poisson_robust(split2={case['split2']})({rp['point']}) = {got}; "
+              f"analytic core potential = {exp}; error per unit core charge = {abs(got - exp) / scale:.3e} (allowed 1e-9)")
+        return int(not abs(got - exp) / scale <= 1e-9)
     print("(no automatic replay for this record; see `text` and `case`)")
     return 0
